@@ -304,7 +304,9 @@ def updateTyped {n p m : Nat} (sparse : Bool) (maskP : Array Bool) (s : Solver K
   let sc := Precond.scaleData s.pk sqrtF cs d8 s.pre reuse s.st.precScaleCost s.st.precIter.toNat
   -- fix 4th of its kind in solver.hpp: a new scaling changes every block; the next solve rebuilds the scalings part
   let all := !reuse
-  let kkt1 := KKT.updateData s.be sc.1 s.kkt (P.isSome || all) (A.isSome || all) (G.isSome || all)
+  -- disabling a constraint (infinite entry of a new h) zeroes a row of G: flagged as a change of G
+  let hDis := match h with | some h => (List.finRange m).any (fun i => (infMask cs h)[i]) | none => false
+  let kkt1 := KKT.updateData s.be sc.1 s.kkt (P.isSome || all) (A.isSome || all) (G.isSome || all || hDis)
   { s with data := sc.1, pre := sc.2, kkt := kkt1, kktInitState := false,
            hDisabled := match h with | some h => infMask cs h | none => s.hDisabled }
 
